@@ -171,7 +171,7 @@ impl Scenario for C09Real {
     fn run(&self, cx: &Cx) -> Result<(), Violation> {
         let addr = gens::address(cx);
         let world = World::new(cx, "C09", OnPanic::Discard, &[(addr, gens::flip_style(cx))], false);
-        let cfg = FaultCfg::swarm(cx, &["lose_request", "short_chunk", "long_chunk", "bad_offset", "bad_count", "bad_config", "duplicate"]);
+        let cfg = FaultCfg::swarm(cx, &["lose_request", "short_chunk", "long_chunk", "bad_offset", "bad_count", "bad_config", "duplicate", "bus_error", "lose_reply", "foreign_reply"]);
         let fb = FaultyBus::new(world.clone(), cx, cfg);
         let (rec, history) = RecordingBus::new(fb);
         let bus = Rc::new(RefCell::new(rec));
@@ -200,6 +200,9 @@ impl Scenario for C09Real {
 
 /// A sign that acknowledges everything and reports what the tape says after each count.
 struct StubSign {
+    /// the exchange with this index (counted per call) fails with a bus error / stray reply
+    abort_at: Option<u64>,
+    seen: u64,
     cx: Cx,
     addr: Address,
     after_count: bool,
@@ -210,6 +213,15 @@ struct StubSign {
 
 impl SignBus for StubSign {
     fn process_message<'a>(&mut self, message: Message<'_>) -> BusResult<'a> {
+        let idx = self.seen;
+        self.seen += 1;
+        if self.abort_at == Some(idx) {
+            self.cx.fault("stub_aborts_call");
+            if self.cx.chance(1, 2) {
+                return Err(crate::bus::bus_error(&self.cx, "stub transport failure"));
+            }
+            return Ok(Some(Message::ReportState(self.addr, State::ReadyToReset)));
+        }
         let r = match message {
             Message::Hello(a) => Some(Message::ReportState(a, State::Unconfigured)),
             Message::RequestOperation(a, op) => {
@@ -268,14 +280,21 @@ impl Scenario for C09Stub {
     fn run(&self, cx: &Cx) -> Result<(), Violation> {
         let addr = gens::address(cx);
         let t = gens::any_sign_type(cx);
-        let stub = StubSign { cx: cx.clone(), addr, after_count: false, fails_left: 0, automatic: cx.draw(2) == 1, in_config: false };
+        let stub = StubSign { abort_at: None, seen: 0, cx: cx.clone(), addr, after_count: false, fails_left: 0, automatic: cx.draw(2) == 1, in_config: false };
         let (rec, history) = RecordingBus::new(stub);
         let bus = Rc::new(RefCell::new(rec));
         let sign = Sign::new(bus.clone(), addr, t);
         cx.set_nontrivial();
         let ncalls = 1 + cx.draw(3);
         for _ in 0..ncalls {
-            bus.borrow_mut().inner.fails_left = *cx.pick(&[0u64, 1, 2, 3, 0]);
+            {
+                let mut b = bus.borrow_mut();
+                b.inner.fails_left = *cx.pick(&[0u64, 1, 2, 3, 0]);
+                // sometimes the call is cut in the middle (bus error or stray reply); the next
+                // call on the same Sign object must still transfer correctly
+                b.inner.seen = 0;
+                b.inner.abort_at = if cx.chance(1, 4) { Some(cx.draw(24)) } else { None };
+            }
             let op = if cx.chance(1, 4) {
                 Op::Configure
             } else {
